@@ -62,6 +62,44 @@ pub fn run(o: &Opts) -> Report {
             }
         }
     }
+    // subcommand spellings: name, visible alias, hidden alias, and (with inference) their unambiguous prefixes are one command;
+    // an ambiguous prefix is never resolved
+    let pool = ["install", "inspect", "add", "address", "attach", "remove", "rm", "in", "att", "addr"];
+    for _ in 0..(if o.thorough() { 3000 } else { 400 }) {
+        let mut names: Vec<&str> = pool.to_vec();
+        let mut take = |rng: &mut Rng| -> String { let k = rng.below(names.len()); names.remove(k).to_string() };
+        let nsubs = 2 + rng.below(2);
+        let mut cmd = CmdS { name: "prog".into(), ..Default::default() };
+        for _ in 0..nsubs {
+            let mut sc = CmdS { name: take(&mut rng), ..Default::default() };
+            for _ in 0..rng.below(3) { sc.aliases.push(take(&mut rng)); }
+            sc.args.push(ArgS { id: "x".into(), long: Some("xx".into()), action: Some("setTrue"), ..Default::default() });
+            cmd.subs.push(sc);
+        }
+        cmd.settings.infer_subcommands = rng.chance(2, 3);
+        if !real_valid(&cmd) { rep.count("invalid_definition(skipped)"); continue; }
+        let spellings: Vec<(String, usize)> = cmd.subs.iter().enumerate().flat_map(|(k, s)| std::iter::once(s.name.clone()).chain(s.aliases.iter().cloned()).map(move |n| (n, k))).chain([("help".to_string(), usize::MAX)]).collect();
+        for (sp, owner) in spellings.iter().filter(|(_, k)| *k != usize::MAX) {
+            let canonical = vec![b"prog".to_vec(), cmd.subs[*owner].name.clone().into_bytes(), b"--xx".to_vec()];
+            let (cc, _, _) = real_parse(&cmd, &canonical);
+            for cut in 1..=sp.len() {
+                let p = &sp[..cut];
+                let argv = vec![b"prog".to_vec(), p.as_bytes().to_vec(), b"--xx".to_vec()];
+                let (c, m, _) = real_parse(&cmd, &argv);
+                let req = parse_request(&cmd, &argv);
+                let exact: Vec<usize> = spellings.iter().filter(|(n, _)| n == p).map(|(_, k)| *k).collect();
+                let mut cands: Vec<usize> = spellings.iter().filter(|(n, _)| n.starts_with(p)).map(|(_, k)| *k).collect(); cands.sort(); cands.dedup();
+                let expect: Option<usize> = if let Some(k) = exact.first() { Some(*k) } else if cmd.settings.infer_subcommands && cands.len() == 1 { Some(cands[0]) } else { None };
+                match expect {
+                    Some(k) if k == *owner => { if c != cc { rep.oracle_fail("equivalent-subcommand-spellings-differ", &req, &format!("`{p}` should run `{}`: {} vs {}", cmd.subs[*owner].name, &c[..c.len().min(200)], &cc[..cc.len().min(200)])); } }
+                    Some(_) => {}
+                    None => { if let Some(mt) = &m { if mt.subcommand_name().is_some() { rep.oracle_fail("ambiguous-prefix-silently-resolved", &req, &format!("`{p}` (candidates {cands:?}) ran {:?}", mt.subcommand_name())); } } }
+                }
+                rep.case(&req, cut < sp.len()); rep.count("subcommand_spellings");
+                reqs.push(req); impls.push(c);
+            }
+        }
+    }
     if o.driver != "none" {
         let model = driver_batch(&o.driver, &reqs, o.par);
         for ((req, m), i) in reqs.iter().zip(model.iter()).zip(impls.iter()) { if m != i { rep.disagree("parse", req, m, i); } }
